@@ -36,6 +36,9 @@ def presentations(modname, v, rng):
             if ' ' in f or '-' in f:
                 out.append(('exchanged', f.replace(' ', '\0').replace('-', ' ').replace('\0', '-')))
             out.append(('formatted-lower', f.lower()))
+    if modname == 'isbn' and len(v) == 10 and v.startswith('0'):
+        out.append(('sbn', v[1:]))            # nine-digit Standard Book Number
+        out.append(('sbn-hyphenated', v[1:4] + '-' + v[4:9] + '-' + v[9]))
     out.append(('whitespace', '  ' + v + '\t'))
     out.append(('lower', v.lower()))
     # keep only presentations the source module itself accepts as the same number
